@@ -60,6 +60,14 @@ class CountedLines(list):
             yield x
 
 
+class SimRaise(Exception):
+    """an exception of class `cls` (dotted name as written, or the name the rule chose for a simulated callee's failure) raised INSIDE interpreted code (exec_small, exception mode)."""
+
+    def __init__(self, cls, node=None):
+        Exception.__init__(self, cls)
+        self.cls, self.node = cls, node
+
+
 def stored_names(nodes):
     return {x.id for s_ in nodes for x in ast.walk(s_) if isinstance(x, ast.Name) and isinstance(x.ctx, (ast.Store, ast.Del))}
 
@@ -68,6 +76,9 @@ def exec_small(stmts, env, lenient=False, until=None, steps=None, evalf=None):
     """Interpretation of a small statement list on the representative values of `env` (name -> value, updated in place): every expression is evaluated by minieval, assignments (names,
     tuple unpacking, augmented), if / for / while / break / continue / return / raise are followed; asserts, docstrings, logging and `pass` are skipped. Nothing of the repository runs.
     -> (kind, value, node) with kind in fallthrough | return | raise | break | continue | until (the statement `until` was reached; it is not executed).
+    exception mode (env["__catches__"] = f(handler, SimRaise) -> bool): try / except / else / finally are followed with Python's semantics for the SimRaise exceptions the caller's
+    evaluator raises for the calls it plays and for the raise statements of the interpreted code; call statements are handed to the evaluator; an exception that no handler takes leaves
+    exec_small as a SimRaise.
     strict (default): anything beyond that raises CannotEval. lenient: a statement that cannot be evaluated makes every name it stores to unknown (removed from env) and the walk goes
     on — used to learn which locals have a KNOWN value when `until` is reached (e.g. a parameter whose default None is resolved to a constant at call time); an `if` around `until` whose
     test cannot be evaluated is entered on the side that leads to it.
@@ -126,6 +137,66 @@ def exec_small(stmts, env, lenient=False, until=None, steps=None, evalf=None):
             if r[0] != "fallthrough":
                 return r
         return None
+
+    def as_sim(r, active=None):
+        """the SimRaise a `raise` outcome stands for: a bare `raise` / `raise <handler name>` re-raises the exception being handled, `raise C(...)` / `raise C` raises class C."""
+        x = r[1]
+        if x is None:
+            if active is None:
+                raise CannotEval(f"line {getattr(r[2], 'lineno', '?')}: bare `raise` outside a handler")
+            return active
+        if isinstance(x, ast.Name) and isinstance(env.get(x.id), SimRaise):
+            return env[x.id]
+        d_ = dotted(x.func) if isinstance(x, ast.Call) else dotted(x)
+        if not d_:
+            raise CannotEval(f"line {getattr(r[2], 'lineno', '?')}: the class of `{u(x)[:40]}` cannot be told")
+        return SimRaise(d_, r[2])
+
+    def run_try(s_):
+        """exception mode (env["__catches__"] = f(handler, SimRaise) -> bool): try / except / else / finally with Python's semantics for the exceptions the evaluator raises for the
+        calls it plays (SimRaise) and for the raise statements of the interpreted code; an exception no handler takes leaves exec_small as a SimRaise."""
+        pending, r = None, ("fallthrough", None, None)
+        try:
+            r = exec_small(s_.body, env, lenient, None, steps, evalf)
+            if r[0] == "raise":
+                raise as_sim(r, env.get("__active__"))
+            if r[0] == "fallthrough" and s_.orelse:
+                try:
+                    r = exec_small(s_.orelse, env, lenient, None, steps, evalf)
+                    if r[0] == "raise":
+                        pending, r = as_sim(r, env.get("__active__")), ("fallthrough", None, None)
+                except SimRaise as y:
+                    pending, r = y, ("fallthrough", None, None)
+        except SimRaise as x:
+            r = ("fallthrough", None, None)
+            if pending is None:
+                h = next((h_ for h_ in s_.handlers if env["__catches__"](h_, x)), None)
+                if h is None:
+                    pending = x
+                else:
+                    if h.name:
+                        env[h.name] = x
+                    outer = env.get("__active__")
+                    env["__active__"] = x
+                    try:
+                        r = exec_small(h.body, env, lenient, None, steps, evalf)
+                        if r[0] == "raise":
+                            pending, r = as_sim(r, x), ("fallthrough", None, None)
+                    except SimRaise as y:
+                        pending = y
+                    finally:
+                        env["__active__"] = outer
+                        if h.name:
+                            env.pop(h.name, None)
+        if s_.finalbody:
+            f_ = exec_small(s_.finalbody, env, lenient, None, steps, evalf)
+            if f_[0] == "raise":
+                raise as_sim(f_, pending)
+            if f_[0] != "fallthrough":
+                return f_
+        if pending is not None:
+            raise pending
+        return r
 
     for s in stmts:
         steps[0] += 1
@@ -201,6 +272,12 @@ def exec_small(stmts, env, lenient=False, until=None, steps=None, evalf=None):
                     env["__yields__"].emit(x_)
             elif "__yields__" in env and isinstance(s, ast.Expr) and isinstance(s.value, ast.Call):
                 ev_(s.value, env)  # a call statement: the evaluator applies the mutating container methods (update / append / ...) to the shared object
+            elif "__catches__" in env and isinstance(s, ast.Expr) and isinstance(s.value, ast.Call):
+                ev_(s.value, env)  # exception mode: the caller's evaluator answers the calls it plays (the simulated callee, the pause) and refuses (CannotEval) the others
+            elif "__catches__" in env and isinstance(s, ast.Try):
+                r = run_try(s)
+                if r[0] != "fallthrough":
+                    return r
             elif lenient and isinstance(s, (ast.With, ast.AsyncWith)):
                 for nm in stored_names([it.optional_vars for it in s.items if it.optional_vars is not None]):
                     env.pop(nm, None)
@@ -891,6 +968,127 @@ def calls_through(mod, fn, depth=2, cls=None):
     return out
 
 
+def record_fields(mod, name):
+    """field names, in constructor order, of the record class `name` of the module: a class whose body declares annotated fields (typing.NamedTuple / dataclass) or a
+    `Name = namedtuple("Name", [...])` assignment; None when `name` is not such a class."""
+    for st_ in mod.tree.body:
+        if isinstance(st_, ast.ClassDef) and st_.name == name:
+            fs = [x.target.id for x in st_.body if isinstance(x, ast.AnnAssign) and isinstance(x.target, ast.Name)]
+            has_init = any(isinstance(x, source.FUNC_TYPES) and x.name in ("__init__", "__new__") for x in st_.body)
+            return fs if fs and not has_init else None
+        if isinstance(st_, ast.Assign) and len(st_.targets) == 1 and isinstance(st_.targets[0], ast.Name) and st_.targets[0].id == name and isinstance(st_.value, ast.Call) \
+                and last_attr(st_.value.func) in ("namedtuple", "NamedTuple") and len(st_.value.args) == 2:
+            try:
+                spec = ast.literal_eval(st_.value.args[1])
+            except (ValueError, SyntaxError):
+                return None
+            fs = spec.replace(",", " ").split() if isinstance(spec, str) else [x if isinstance(x, str) else x[0] for x in spec]
+            return list(fs)
+    return None
+
+
+class Alternatives:
+    """the values an expression written in a method may stand for, in the method's own terms — by data flow, not by the names of locals:
+    a local assigned inside `scope` (plain, `a, b = x, y`, `a, b = <pair>`) stands for each of its assigned values (key: the explicit guards of the assignment);
+    `<call of a helper method of the class / function of the module>` stands for each expression the helper returns, with the helper's parameters replaced by the call's arguments
+    (key: the return statement); `<record>.field` / `<pair>[i]` of a record constructor (NamedTuple / dataclass of the module) or a tuple display is that component.
+    of(e) -> [(key, expression)]; expressions that cannot be taken apart are handed back as they are (key ())."""
+
+    def __init__(self, mod, cls, scope, keep=()):
+        self.mod, self.scope, self.keep = mod, scope, set(keep)
+        self.cls = cls
+        self.methods = mod.methods(cls) if cls is not None else {}
+        self.helpers = helper_functions(mod)
+
+    def assigned(self, name):
+        out = []
+        for n in ast.walk(self.scope):
+            if not (isinstance(n, ast.Assign) and len(n.targets) == 1):
+                continue
+            t = n.targets[0]
+            if isinstance(t, ast.Name) and t.id == name:
+                out.append((n, n.value))
+            elif isinstance(t, (ast.Tuple, ast.List)):
+                for i, el in enumerate(t.elts):
+                    if isinstance(el, ast.Name) and el.id == name:
+                        if isinstance(n.value, (ast.Tuple, ast.List)) and len(n.value.elts) == len(t.elts):
+                            out.append((n, n.value.elts[i]))  # `a, b = x, y`
+                        else:
+                            out.append((n, ast.Subscript(value=n.value, slice=ast.Constant(value=i), ctx=ast.Load())))  # `a, b = <pair>`
+        return out
+
+    def helper_of(self, call):
+        if isinstance(call.func, ast.Name):
+            return self.helpers.get(call.func.id)
+        if isinstance(call.func, ast.Attribute) and is_self_attr(call.func):
+            return self.methods.get(call.func.attr)
+        return None
+
+    def component(self, base, proj):
+        """the component `proj` (an Attribute / Subscript node whose value is `base`) selects from the record constructor call / tuple display `base`; None when it cannot be told."""
+        idx = proj.slice.value if isinstance(proj, ast.Subscript) and isinstance(proj.slice, ast.Constant) and isinstance(proj.slice.value, int) else None
+        if isinstance(base, (ast.Tuple, ast.List)):
+            return base.elts[idx] if idx is not None and -len(base.elts) <= idx < len(base.elts) and not any(isinstance(x, ast.Starred) for x in base.elts) else None
+        if isinstance(base, ast.Call) and not any(isinstance(x, ast.Starred) for x in base.args) and all(k.arg for k in base.keywords):
+            fs = record_fields(self.mod, last_attr(base.func) or "")
+            if fs is None:
+                return None
+            if isinstance(proj, ast.Attribute):
+                if proj.attr not in fs:
+                    return None
+                idx = fs.index(proj.attr)
+            if idx is None or not -len(fs) <= idx < len(fs):
+                return None
+            idx %= len(fs)
+            if idx < len(base.args):
+                return base.args[idx]
+            return next((k.value for k in base.keywords if k.arg == fs[idx]), None)
+        return None
+
+    def of(self, e, depth=0):
+        if depth > 6:
+            return [((), e)]
+        if isinstance(e, ast.Name) and e.id not in self.keep:
+            asg = self.assigned(e.id)
+            if asg:
+                return [(tuple((u(t), pol) for t, pol in guards(n, stop=self.scope)) + k, x) for n, v in asg for k, x in self.of(v, depth + 1)]
+            return [((), e)]
+        if isinstance(e, (ast.Attribute, ast.Subscript)) and isinstance(getattr(e, "ctx", None), ast.Load) and not is_self_attr(e):
+            out = []
+            for k, base in self.of(e.value, depth + 1):
+                c_ = self.component(base, e)
+                if c_ is None:
+                    out.append((k, e if base is e.value else (ast.Attribute(value=base, attr=e.attr, ctx=ast.Load()) if isinstance(e, ast.Attribute) else ast.Subscript(value=base, slice=e.slice, ctx=ast.Load()))))
+                else:
+                    out += [(k + k2, x) for k2, x in self.of(c_, depth + 1)]
+            return out
+        if isinstance(e, ast.Call):
+            h = self.helper_of(e)
+            rets = [r for r in walk_body(h) if isinstance(r, ast.Return) and r.value is not None] if h is not None else []
+            if rets and not any(isinstance(x, (ast.Yield, ast.YieldFrom)) for x in walk_body(h)):
+                b = dict(source.bind_args(e, h))
+                a = h.args
+                names = own_params(h)
+                for nm, dv in list(zip([x.arg for x in a.posonlyargs + a.args][len(a.posonlyargs + a.args) - len(a.defaults):], a.defaults)) + [(x.arg, dv) for x, dv in zip(a.kwonlyargs, a.kw_defaults) if dv is not None]:
+                    b.setdefault(nm, dv)
+                for x in ast.walk(h):  # the helper's own names (locals, unbound parameters) must not be mistaken for names of the caller
+                    nm = x.id if isinstance(x, ast.Name) and isinstance(x.ctx, ast.Store) else (x.arg if isinstance(x, ast.arg) else None)
+                    if nm is not None and nm not in b and nm not in ("self", "cls"):
+                        b[nm] = ast.Name(id=f"{nm}__in_{h.name}", ctx=ast.Load())
+                inner = Alternatives(self.mod, self.cls, h, keep=names)
+                out = []
+                for r in rets:
+                    for k, x in inner.of(returned(r), depth + 1):
+                        # in the caller's terms, and taken apart further there (an argument may itself be a local of the caller)
+                        out += [((("return", h.name, r.lineno),) + k + k2, y) for k2, y in self.of(subst(x, b), depth + 1)]
+                return out
+        return [((), e)]
+
+    def table(self, e):
+        """{key: text} of of(e), the unconditional alternative under the key None (the form the pairing code below works on)."""
+        return {(k or None): u(x) for k, x in self.of(e)}
+
+
 def removes_file(stmts, path, mod, depth=0):
     """True / False: the statement list, evaluated for the case 'the file named by the local `path` exists' (every existence test of it is true; tables.decide, nothing runs), removes
     that file — os.remove / os.unlink of it, directly or through a helper function of the same module that is called with it. None when the statements are beyond the evaluator.
@@ -1137,6 +1335,211 @@ def handler_outcome(h, vals):
         return tables.decide(h.body, atom, {}, on_stmt=on_stmt)
     except (tables.Unsupported, UnknownAtom) as e:
         raise CannotEval(str(e))
+
+
+_RETRIED = ("urllib3.exceptions.ProtocolError", "urllib3.exceptions.ReadTimeoutError")  # a connection dropped in the middle of the body / a stalled one: the transfer is started over
+# failures that must reach the caller at once: the superclasses of the two (urllib3's HTTPError / TimeoutError), other urllib3 errors, an HTTP status error, OS errors, an interrupt
+_NOT_RETRIED = ("urllib3.exceptions.HTTPError", "urllib3.exceptions.TimeoutError", "urllib3.exceptions.MaxRetryError", "urllib3.exceptions.ConnectTimeoutError",
+                "urllib.error.HTTPError", "urllib.error.URLError", "OSError", "ConnectionError", "Exception", "KeyboardInterrupt")
+_LOGGISH = ("logging.", "logger.", "console.", "self.logger.")
+
+
+class Unbounded(Exception):
+    pass
+
+
+class TransferPlay:
+    """download_http interpreted statement by statement (exec_small, exception mode; nothing of the repository runs) with every call of the transfer ANSWERED by a script: the k-th call
+    raises the class script[k] (None = it succeeds and hands back `result`), every call beyond the script is answered by `rest`. Records the evaluated arguments of every attempt (bound to
+    the transfer's parameters) and the pauses; `end` = ("return", value) | ("raise", SimRaise) | ("fallthrough", None)."""
+
+    result = Opaque("the size reported by the transfer")
+
+    def __init__(self, mod, fn, callee, tcalls, env, hier, script, rest):
+        self.calls, self.pauses, self.raised = [], [], []
+        mexpr = {st_.targets[0].id: st_.value for st_ in mod.tree.body if isinstance(st_, ast.Assign) and len(st_.targets) == 1 and isinstance(st_.targets[0], ast.Name)}
+
+        def class_names(e, depth=0):
+            """dotted class names an except clause's type expression stands for (tuples, module-level names bound to a class / a tuple of classes followed)."""
+            if e is None:
+                return ["BaseException"]
+            if isinstance(e, (ast.Tuple, ast.List)):
+                return [x for el in e.elts for x in class_names(el, depth)]
+            if isinstance(e, ast.Name) and e.id in mexpr and depth < 4:
+                return class_names(mexpr[e.id], depth + 1)
+            if isinstance(e, ast.BinOp) and isinstance(e.op, ast.Add):  # concatenated tuples
+                return class_names(e.left, depth) + class_names(e.right, depth)
+            d_ = dotted(e)
+            if not d_:
+                raise CannotEval(f"the classes named by `{u(e)[:50]}` cannot be told")
+            head = d_.split(".")[0]
+            if head in mod.imports and mod.imports[head] != head:
+                d_ = mod.imports[head] + d_[len(head):]
+            return [d_]
+
+        def catches(h, x):
+            names = class_names(h.type)
+            if any(n_ == x.cls for n_ in names):
+                return True
+            if not all(hier.known(n_) for n_ in names):
+                raise CannotEval(f"line {h.lineno}: whether `except {u(h.type)[:50]}` takes a {x.cls} cannot be told (class outside the parsed hierarchies)")
+            if not hier.known(x.cls):  # a class of the package / an unparsed library: an Exception subclass as far as the builtin handlers are concerned
+                return any(hier.resolve_alias(n_) in ("Exception", "BaseException") for n_ in names)
+            return hier.catches(names, x.cls)
+
+        loops = [n for n in walk_body(fn) if isinstance(n, ast.For) and any(any(x is c for c in tcalls) for x in ast.walk(n))]
+        self.iterations = []  # (for loop around a transfer call, CountedLines over the items it was started with): how far each run of the loop got
+
+        def evalf(e, env_):
+            for l_ in loops:
+                if e is l_.iter:
+                    v = evalf0(e, env_)
+                    if not isinstance(v, (list, tuple, range)):
+                        raise CannotEval(f"iteration over `{u(e)[:40]}`")
+                    self.iterations.append((l_, CountedLines(v)))
+                    return self.iterations[-1][1]
+            return evalf0(e, env_)
+
+        def evalf0(e, env_):
+            if any(e is c for c in tcalls):
+                if len(self.calls) >= 1000:
+                    raise Unbounded()
+                got = {}
+                for p_, a_ in source.bind_args(e, callee).items():
+                    try:
+                        got[p_] = ev(a_, env_)
+                    except CannotEval:
+                        got[p_] = CannotEval
+                self.calls.append(got)
+                o = script[len(self.calls) - 1] if len(self.calls) <= len(script) else rest
+                if o is None:
+                    return self.result
+                self.raised.append(SimRaise(o, e))
+                raise self.raised[-1]
+            if any(any(x is c for c in tcalls) for x in ast.walk(e)):
+                raise CannotEval(f"the transfer's result is used inside `{u(e)[:50]}`")
+            if isinstance(e, ast.Call):
+                d_ = dotted(e.func) or ""
+                try:
+                    f_ = ev(e.func, env_)
+                except CannotEval:
+                    f_ = None
+                if d_ in ("range", "enumerate", "reversed") and e.args and not e.keywords:  # the iteration idioms of a retry loop
+                    vals = [evalf0(a_, env_) for a_ in e.args]
+                    try:
+                        return range(*vals) if d_ == "range" else list(enumerate(*vals)) if d_ == "enumerate" else list(reversed(*vals))
+                    except (TypeError, ValueError) as x:
+                        raise CannotEval(f"{u(e)[:50]}: {type(x).__name__}")
+                if d_ == "time.sleep" or (isinstance(f_, Opaque) and f_.text == "time.sleep"):
+                    self.pauses.append(len(self.calls))
+                    return None
+                recv = env_.get(e.func.value.id) if isinstance(e.func, ast.Attribute) and isinstance(e.func.value, ast.Name) else None
+                if d_.startswith(_LOGGISH) or is_logging_stmt(ast.Expr(value=e)) or (isinstance(recv, Opaque) and recv.text.startswith(_LOGGISH)):
+                    return Opaque(u(e)[:60])  # a logger / a log line: no effect on the attempts
+            return ev(e, env_)
+
+        env = dict(env, __catches__=catches)
+        try:
+            k, v, n = exec_small(fn.body, env, steps=[-20000], evalf=evalf)
+            self.end = (k, as_raised(v, n) if k == "raise" else v)
+        except SimRaise as x:
+            self.end = ("raise", x)
+
+    def text(self):
+        k, v = self.end
+        return f"raises {v.cls.split('.')[-1]}" if k == "raise" else "returns the transfer's result" if v is self.result else f"returns {v!r}" if k == "return" else "returns None (falls off the end)"
+
+
+def as_raised(exc, node):
+    """the SimRaise for a raise statement that ended the interpreted function outside any try statement."""
+    d_ = None if exc is None else dotted(exc.func) if isinstance(exc, ast.Call) else dotted(exc)
+    if not d_:
+        raise CannotEval(f"line {getattr(node, 'lineno', '?')}: the class of `{u(node)[:50]}` cannot be told")
+    return SimRaise(d_, node)
+
+
+def retry_worlds(chk, rid, mod, fn, callee, tcalls, env, reps):
+    """the retry obligations of O14.2, decided on what download_http DOES per world (which attempts fail, and with which class) instead of on the spelling of its loop: the budget = the
+    number of attempts made when every attempt is cut off; the error of the last attempt reaches the caller; a cut-off attempt is followed by the next one, which hands back the
+    transfer's result; every other failure reaches the caller at once; every attempt gets the same url / path / declared size. A loop over range(N + 1) with a re-raise at the last
+    index, N tolerated attempts followed by a last one outside the try, a while loop with a counter, ... all read the same."""
+    from sa.exc import Hierarchy
+
+    hier = getattr(chk.repo, "_c14_hier", None)
+    if hier is None:
+        hier = chk.repo._c14_hier = Hierarchy()
+    site = source.enclosing(tcalls[0], (ast.For, ast.While)) or source.enclosing_stmt(tcalls[0])
+    trys = [t_ for t_ in (source.enclosing(c, ast.Try) for c in tcalls) if t_ is not None and any(x is t_ for x in walk_body(fn))]
+    hsite = trys[0].handlers[0] if trys and trys[0].handlers else site
+
+    def play(script, rest):
+        return TransferPlay(mod, fn, callee, tcalls, env, hier, script, rest)
+
+    try:
+        cut = {c_: play([], c_) for c_ in _RETRIED}
+    except Unbounded:
+        chk.ob(rid, "range(HTTP_DOWNLOAD_RETRIES + 1)", False, site, "more than 1000 attempts are made when every attempt is cut off: the transfer is retried (practically) forever")
+        return
+    except CannotEval as e:
+        chk.unknown(rid, f"download_http: what it does when every attempt of the transfer is cut off cannot be evaluated: {e}", site)
+        return
+    budget = {c_: len(p_.calls) for c_, p_ in cut.items()}
+    attempts = min(budget.values())
+    ok = 2 <= attempts < 1000
+    chk.ob(rid, "range(HTTP_DOWNLOAD_RETRIES + 1)", ok, site,
+           "; ".join(f"{n_} attempt(s) when every attempt ends in {c_.split('.')[-1]}" for c_, n_ in budget.items()) + ("" if ok else " — the transfer is not retried at all"))
+    chk.ob(rid, "retry constant is a positive integer", ok and attempts - 1 > 0, site, f"{attempts - 1} retry(ies), {len(cut[_RETRIED[0]].pauses)} pause(s)")
+    # the error of the LAST attempt reaches the caller (re-raised, never caught, or wrapped into another exception: an explicit error either way), not a `return None` / a fall off the end
+    wrong = [f"every attempt ends in {c_.split('.')[-1]}: after {len(p_.calls)} attempt(s) download_http {p_.text()} — the error of the last attempt is swallowed"
+             for c_, p_ in cut.items() if p_.end[0] != "raise"]
+    chk.ob(rid, "re-raise on the last index (before anything else)", not wrong, hsite, "; ".join(wrong[:2]))
+    # ... and it is the error of the last attempt the loop PROVIDES for: a for loop around the transfer is left, when every attempt is cut off, only after its last item (the budget its
+    # header declares is used up; a re-raise one index early loses an attempt)
+    lost = [(l_, f"every attempt ends in {c_.split('.')[-1]}: the loop over `{u(l_.iter)[:50]}` ({len(it_)} items) is left after item {it_.taken} — {len(it_) - it_.taken} attempt(s) of the budget are lost")
+            for c_, p_ in cut.items() for l_, it_ in p_.iterations if it_.taken < len(it_)]
+    if any(p_.iterations for p_ in cut.values()):
+        chk.ob(rid, "every attempt the retry loop provides for is made", not lost, lost[0][0] if lost else cut[_RETRIED[0]].iterations[0][0], "; ".join(d_ for _, d_ in lost[:2]))
+    plays = list(cut.values())
+    try:
+        # k cut-off attempts, then one that succeeds: attempt k + 1 is made and its result handed back
+        wrong, lost = [], []
+        for c_ in _RETRIED:
+            for k in sorted({0, 1, max(attempts - 1, 0)}):
+                if k and not ok:
+                    continue
+                p_ = play([c_] * k + [None], None)
+                plays.append(p_)
+                if len(p_.calls) != k + 1:
+                    wrong.append(f"{k} attempt(s) end in {c_.split('.')[-1]}, the next one would succeed: {len(p_.calls)} attempt(s) made, download_http {p_.text()} — no further attempt")
+                elif p_.end[0] == "raise":
+                    wrong.append(f"attempt {k + 1} succeeds after {k} x {c_.split('.')[-1]}: download_http {p_.text()}")
+                elif p_.end[1] is not p_.result:
+                    lost.append(f"attempt {k + 1} succeeds: download_http {p_.text()}")
+        if ok:
+            chk.ob(rid, "a cut-off attempt is followed by the next one", not wrong, hsite, "; ".join(wrong[:2]))
+        chk.ob(rid, "attempt returns the transfer's result", not lost and not (wrong and not ok), source.enclosing_stmt(tcalls[0]),
+               "; ".join((lost + wrong)[:2]) + ("" if not lost else " — the size reported by the transfer is discarded: an undeclared size is never verified against Content-Length"))
+        # any other failure of the first attempt reaches the caller at once (the next attempt would succeed: a retry is visible as a second call)
+        wrong = []
+        for c_ in _NOT_RETRIED:
+            p_ = play([c_, None], None)
+            plays.append(p_)
+            if not (len(p_.calls) == 1 and p_.end[0] == "raise"):
+                wrong.append(f"{c_}: {len(p_.calls)} attempt(s), download_http {p_.text()}")
+        chk.ob(rid, "retry only for ProtocolError / ReadTimeoutError", not wrong, hsite, "; ".join(wrong[:3]))
+    except Unbounded:
+        chk.ob(rid, "retry only for ProtocolError / ReadTimeoutError", False, site, "more than 1000 attempts")
+    except CannotEval as e:
+        chk.unknown(rid, f"download_http: a world of the retry protocol cannot be evaluated: {e}", site)
+    # every attempt of every world was handed download_http's own url / path / declared size
+    first3 = params(callee, 3)[:3]
+    seen = [[c.get(p_, CannotEval) for p_ in first3] for p_ in plays for c in p_.calls]
+    if any(v is CannotEval for c in seen for v in c):
+        chk.unknown(rid, "download_http: the url / path / size arguments of a transfer attempt cannot be evaluated", source.enclosing_stmt(tcalls[0]))
+    else:
+        bad = [c for c in seen if c != list(reps)]
+        chk.ob(rid, "the same url / path / expected size are used on every attempt", bool(seen) and not bad, source.enclosing_stmt(tcalls[0]),
+               "" if not bad else f"an attempt is handed {bad[0]!r} instead of {list(reps)!r}")
 
 
 def verification_contexts(mod, cls, fn, anchor, roles, before=False, always_self=False):
@@ -1953,8 +2356,10 @@ def recreated_file_invalidates_table(chk, io_mod, ldr, roles, rid="O14.9"):
         reach_ = calls_through(ldr, f, cls=P)
         cfo = method(ldr, P, "create_file_offset_table")
         cdoc = params(cfo, 2)[1]
+        # ... whose target MAY be the document file: an argument that is — or, followed by data flow (Alternatives: locals, the record / pair a helper method returns), can stand for — it
+        alts_ = Alternatives(ldr, P, f, keep=names | {"self"})
         creators = [(c, r_) for c, a_, k_, r_ in reach_ if isinstance(c.func, ast.Attribute) and c.func.attr in ("decompress", "download") and is_self_attr(c.func.value)
-                    and any(isinstance(a, ast.Name) and a.id in names for a in list(a_) + list(k_.values()))]
+                    and any(isinstance(x, ast.Name) and x.id in names for a in list(a_) + list(k_.values()) if not isinstance(a, ast.Starred) for _, x in alts_.of(a))]
         builds = [r_ for c, a_, k_, r_ in reach_ if last_attr(c.func) == "create_file_offset_table" and isinstance(bound_params(a_, k_, cfo).get(cdoc), ast.Name) and bound_params(a_, k_, cfo)[cdoc].id in names]
         if not creators or not builds:
             raise AnchorMissing(f"{name}: calls that (re)create the document file `{docv}` (decompress / download) and the offset-table step")
@@ -1988,8 +2393,15 @@ def recreated_file_invalidates_table(chk, io_mod, ldr, roles, rid="O14.9"):
             path = None
             if not ok:
                 if r_ is not c:
-                    chk.unknown(rid, f"{name}: `{c.func.attr}` into the document file is reached through `{short(r_, 60)}`; an invalidation inside that helper is not followed", r_)
-                    continue
+                    # reached through a helper method: an invalidation INSIDE the helper is not followed (not recognised) — unless the helper and what it calls make no call statement
+                    # at all besides the (re)creating call itself, log lines and pure look-ups: then nothing in there can remove the table, and the path is as bare as it looks
+                    h_ = alts_.helper_of(r_) if isinstance(r_, ast.Call) else None
+                    may = None if h_ is None else [x for x, _a, _k, _r in calls_through(ldr, h_, cls=P) if x is not c and isinstance(source.parent(x), ast.Expr) and not is_logging_stmt(source.parent(x))
+                                                  and not (dotted(x.func) or "").startswith(_HARMLESS) and dotted(x.func) not in _PURE_BUILTINS]
+                    if may is None or may:
+                        chk.unknown(rid, f"{name}: `{c.func.attr}` into the document file is reached through `{short(r_, 60)}`; an invalidation inside that helper"
+                                         + (f" (`{short(may[0], 50)}`)" if may else "") + " is not followed", r_)
+                        continue
                 if opaque_nodes and g.must_pass(cn, inv_nodes + opaque_nodes, exits=build_nodes, normal_only=True):
                     chk.unknown(rid, f"{name}: between `{c.func.attr}` into the document file and the table step lies `{short(opaque[0], 60)}`, which is handed the document file and cannot be "
                                      f"followed (whether it invalidates the old offset table cannot be told)", opaque[0])
@@ -2341,7 +2753,9 @@ def run(chk):
         "written under a temporary name and published by one rename after the writing block completed (path expressions evaluated on a representative data-file path); every call that "
         "(re)creates the document file is followed by the removal of its old offset table before the table step. Roles are located by data flow (arguments bound to the callee's "
         "parameters, calls followed into helper functions / methods of the same module / class with the arguments expressed in the caller's terms) and decisions are taken on "
-        "representative values (tables.decide + minieval on the extracted tests: size / line-count mismatch tables, retry handler per loop index, extension dispatch incl. module-level "
+        "representative values (tables.decide + minieval on the extracted tests: size / line-count mismatch tables, download_http interpreted statement by statement incl. try / except per "
+        "world of cut-off attempts (the transfer is answered by a script, handlers selected through the parsed urllib3 hierarchy), the (target, size) pairs and the (re)creating calls "
+        "followed through helper methods that return a record / a pair, extension dispatch incl. module-level "
         "dispatch tables, splitext on concrete names, the scanning loop per readline() result, is_valid per (exists, mtimes), the written table entry parsed by the reader's own "
         "expression, find_closest_offset interpreted statement by statement on tables written by add_offset, the retry budget on the values the locals have when the loop is reached "
         "for the call net.download makes, the external-tool / library fallback per (tool present, external run succeeded) world, splitext interpreted statement by statement over "
@@ -2529,18 +2943,18 @@ def run(chk):
            key=f"{_N}:download_from_bucket:returns-declared-size")
 
     # ---- O14.2 retry budget / HTTP status --------------------------------------------------------------------------------------------------------
-    chk.rule("O14.2", "HTTP retry loop: range(N + 1), retry only for the two urllib3 protocol classes, re-raise on the last index, result returned; every non-2xx status raises an HTTP error "
+    chk.rule("O14.2", "HTTP retry protocol, decided on the interpreted download_http per world (which attempts of the transfer are cut off, with which class): 2..999 attempts (range(N + 1)) when "
+             "every attempt is cut off, a retry only for the two urllib3 protocol classes, the error of the last attempt reaches the caller (re-raise on the last index), no attempt a "
+             "retry loop provides for is lost, the transfer's result returned, same arguments on every attempt; every non-2xx status raises an HTTP error "
              "(status domain {200,204,299,300,304,399,400,404,500})", 12,
              "a dropped connection aborts at once / retries forever; a 3xx/4xx body is stored as the data file")
     dh = net.func("download_http")
     dhh = net.func("_download_http")
-    # role: the retry loop = the for loop of download_http that contains the call of the transfer (_download_http)
+    # role: the attempts = the calls of the transfer (_download_http) that download_http makes, wherever they stand (inside a retry loop, behind it, in a while loop, ...)
     tcalls = [n for n in walk_body(dh) if isinstance(n, ast.Call) and last_attr(n.func) == "_download_http"]
-    loops = [n for n in walk_body(dh) if isinstance(n, ast.For) and any(any(x is c for x in ast.walk(n)) for c in tcalls)]
-    if not loops:
-        raise AnchorMissing("retry loop (a for loop around the _download_http call) in download_http")
-    L = loops[0]
-    # the number of attempts, decided on its value: module-level literal constants are bound (whether the loop names one or, after constant propagation N9, holds the literal)
+    if not tcalls:
+        raise AnchorMissing("the call(s) of the transfer _download_http in download_http")
+    # module-level literal constants are bound (whether the code names one or, after constant propagation N9, holds the literal) ...
     menv = {}
     for st_ in net.tree.body:
         if isinstance(st_, ast.Assign) and len(st_.targets) == 1 and isinstance(st_.targets[0], ast.Name):
@@ -2548,77 +2962,27 @@ def run(chk):
                 menv[st_.targets[0].id] = ast.literal_eval(st_.value)
             except (ValueError, SyntaxError):
                 pass
-    # ... and the locals / parameters with a KNOWN value when the loop is reached, for the call net.download makes (role: the transfer on the corpus path): every parameter the call does
-    # not pass has its default, and the statements in front of the loop are interpreted on those values (exec_small, lenient: what cannot be evaluated becomes unknown) — a budget
+    # ... and the parameters have the values of the call net.download makes (role: the transfer on the corpus path): every parameter the call does not pass has its default — a budget
     # that is a keyword parameter `retries=None`, resolved to the module constant at call time, reads like the constant itself
-    try:
-        a = dh.args
-        pvals = {}
-        for nm, dv in list(zip([x.arg for x in a.posonlyargs + a.args][len(a.posonlyargs + a.args) - len(a.defaults):], a.defaults)) + [(x.arg, dv) for x, dv in zip(a.kwonlyargs, a.kw_defaults) if dv is not None]:
-            try:
-                pvals[nm] = ev(dv, dict(menv))
-            except CannotEval:
-                pass
-        for c_, a_, k_, r_ in [w_ for w_ in reach if last_attr(w_[0].func) == "download_http"][:1]:
-            for nm, e_ in bound_params(a_, k_, dh).items():
-                try:
-                    pvals[nm] = ev(e_, dict(menv))
-                except CannotEval:
-                    pvals.pop(nm, None)
-        lenv = dict(menv, **pvals)
-        if exec_small(dh.body, lenv, lenient=True, until=L)[0] == "until":
-            menv = {k: v for k, v in lenv.items() if v is None or isinstance(v, (bool, int, float, str, bytes, tuple))}
-    except CannotEval:
-        pass  # the values in front of the loop stay unknown: whatever depends on them is reported as not recognised below
-    attempts = None
-    if isinstance(L.iter, ast.Call) and dotted(L.iter.func) == "range" and L.iter.args and not L.iter.keywords:
+    a = dh.args
+    pvals = {}
+    for nm, dv in list(zip([x.arg for x in a.posonlyargs + a.args][len(a.posonlyargs + a.args) - len(a.defaults):], a.defaults)) + [(x.arg, dv) for x, dv in zip(a.kwonlyargs, a.kw_defaults) if dv is not None]:
         try:
-            attempts = len(range(*[eval_with(a, dict(menv)) for a in L.iter.args]))
-        except (CannotEval, TypeError, ValueError):
-            attempts = None
-    if attempts is None:
-        chk.unknown("O14.2", f"download_http: the number of attempts `{u(L.iter)}` of the retry loop cannot be evaluated", L)
-    ok = isinstance(attempts, int) and not isinstance(attempts, bool) and 2 <= attempts < 1000
-    if attempts is not None:
-        chk.ob("O14.2", "range(HTTP_DOWNLOAD_RETRIES + 1)", ok, L, f"{u(L.iter)} = {attempts} attempt(s)" + ("" if ok else " — the transfer is not retried at all"))
-        chk.ob("O14.2", "retry constant is a positive integer", ok and attempts - 1 > 0, L, "")
-    tc = tcalls[0]
-    t = source.enclosing(tc, ast.Try)
-    if t is None or not any(x is t for x in ast.walk(L)) or not t.handlers:
-        chk.unknown("O14.2", "download_http: the try / except around the transfer inside the retry loop cannot be located", L)
-    elif not (isinstance(L.target, ast.Name) and isinstance(L.iter, ast.Call) and dotted(L.iter.func) == "range"):
-        chk.unknown("O14.2", "download_http: the retry loop is not `for <index> in range(...)`", L)
-    else:
-        # the attempt hands the transfer's result (the size to verify against) back: returned at once (possibly through a temporary), or kept in a local that is returned later
-        st_ = source.enclosing_stmt(tc)
-        if isinstance(st_, ast.Return) and returned(st_) is tc or (isinstance(st_, ast.Assign) and st_.value is tc and isinstance(source.parent(st_), (ast.Try, ast.For, ast.If)) and returned_later(dh, st_)):
-            chk.ob("O14.2", "attempt returns the transfer's result", True, st_, "")
-        elif isinstance(st_, ast.Expr) and st_.value is tc:
-            chk.ob("O14.2", "attempt returns the transfer's result", False, st_, "the size reported by the transfer is discarded: an undeclared size is never verified against Content-Length")
-        else:
-            chk.unknown("O14.2", f"download_http: what becomes of the transfer's result in `{short(st_, 70)}` cannot be followed", st_)
-        names = sorted(last_attr(e) or "<any>" for h in t.handlers for e in (h.type.elts if isinstance(h.type, ast.Tuple) else [h.type]))
-        chk.ob("O14.2", "retry only for ProtocolError / ReadTimeoutError", names == ["ProtocolError", "ReadTimeoutError"], t, f"{names}")
-        iv = L.target.id
-        if isinstance(attempts, int) and 2 <= attempts < 1000:
-            # every handler, evaluated (tables.decide / minieval) for every index the loop takes: it re-raises exactly at the last one, and goes on to the next attempt before
+            pvals[nm] = ev(dv, dict(menv))
+        except CannotEval:
+            pvals[nm] = Opaque(dotted(dv) or u(dv)[:40])  # e.g. sleep=time.sleep: only its identity matters (role 'the pause': a call of a value that IS time.sleep)
+    for c_, a_, k_, r_ in [w_ for w_ in reach if last_attr(w_[0].func) == "download_http"][:1]:
+        for nm, e_ in bound_params(a_, k_, dh).items():
             try:
-                idx = list(range(*[eval_with(a, dict(menv)) for a in L.iter.args]))
-                wrong = []
-                for h in t.handlers:
-                    for k in idx:
-                        o = handler_outcome(h, dict(menv, **{iv: k}))
-                        reraise = o.kind == "raise" and (o.value is None or (h.name and u(o.value) == h.name))
-                        if k == idx[-1] and not reraise:
-                            wrong.append(f"{iv}={k} (last attempt): `{o.text()[:40]}` — the error of the last attempt is swallowed")
-                        elif k != idx[-1] and o.kind not in ("fallthrough", "continue"):
-                            wrong.append(f"{iv}={k}: `{o.text()[:40]}` — no further attempt")
-                chk.ob("O14.2", "re-raise on the last index (before anything else)", not wrong, t.handlers[0], "; ".join(wrong[:3]))
-            except CannotEval as e:
-                chk.unknown("O14.2", f"download_http: the handler of the retry loop cannot be evaluated over the loop's indices: {e}", t.handlers[0])
-        b_ = source.bind_args(tc, dhh)
-        ok = [u(b_.get(p_)) for p_ in params_of(dhh)[:3]] == params_of(dh)[:3]
-        chk.ob("O14.2", "the same url / path / expected size are used on every attempt", ok, st_, "")
+                pvals[nm] = ev(e_, dict(menv))
+            except CannotEval:
+                pvals[nm] = Opaque(f"net.download's {u(e_)[:40]}")
+    dhp = params(dh, 3)
+    reps = ["https://example.org/corpus/documents.json.bz2", _REP + ".tmp", 7]  # representative url / temporary path / declared size
+    pvals.update(dict(zip(dhp[:3], reps)))
+    for nm in params_of(dh) + [x.arg for x in a.kwonlyargs]:
+        pvals.setdefault(nm, Opaque(f"a {nm}"))
+    retry_worlds(chk, "O14.2", net, dh, dhh, tcalls, dict(menv, **pvals), reps)
     st = [n for n in walk_body(dhh) if isinstance(n, ast.If) and ".status" in u(n.test)]
     if not st:
         raise AnchorMissing("status test in _download_http")
@@ -2802,14 +3166,8 @@ def run(chk):
         good = {(archv, True), (docv, False)}
         seen, odd = set(), []
 
-        def alternatives(e):
-            if isinstance(e, ast.Name) and e.id not in (archv, docv):
-                asg = [(n, n.value) for n in ast.walk(WL) if isinstance(n, ast.Assign) and len(n.targets) == 1 and u(n.targets[0]) == e.id]
-                asg += [(n, v_) for n in ast.walk(WL) if isinstance(n, ast.Assign) and len(n.targets) == 1 and isinstance(n.targets[0], ast.Tuple) and isinstance(n.value, ast.Tuple)
-                        and len(n.targets[0].elts) == len(n.value.elts) for t_, v_ in zip(n.targets[0].elts, n.value.elts) if u(t_) == e.id]  # `a, b = x, y`
-                if asg:
-                    return {tuple((u(t), pol) for t, pol in guards(n, stop=WL)): u(v_) for n, v_ in asg}
-            return {None: u(e)}
+        # (Alternatives: locals assigned in the arms, pairs unpacked from / fields read off the record a helper method returns, all followed by data flow)
+        alternatives = Alternatives(ldr, P, WL, keep=(archv, docv, dsv)).table
 
         for c, b_, r_ in dws:
             t_, z_ = b_.get(dwp[2]), b_.get(dwp[3])
@@ -3124,6 +3482,44 @@ _RMW_MISSING_OK = 'def remove_file_offset_table(data_file_path: str, missing_ok:
 _TMP_OLD = '    tmp_data_set_path = local_path + ".tmp"\n'
 _GEN_OLD = ('        for corpus in used_corpora(track):\n            params = {"cfg": self.cfg, "track": track, "corpus": corpus, "preparator": prep}\n'
             '            yield DefaultTrackPreparator.prepare_docs, params\n')
+
+_RL_OLD = ('    for i in range(HTTP_DOWNLOAD_RETRIES + 1):\n        try:\n            return _download_http(url, local_path, expected_size_in_bytes, progress_indicator)\n'
+           '        except (urllib3.exceptions.ProtocolError, urllib3.exceptions.ReadTimeoutError) as exc:\n            if i == HTTP_DOWNLOAD_RETRIES:\n                raise\n'
+           '            logger.warning("Retrying after %s", exc)\n            sleep(5)\n            continue\n')
+# benign b13: N attempts that are allowed to fail, then one whose error reaches the caller; the pause and the retried classes are module-level names
+_RL_TAIL = ('    for _ in range(HTTP_DOWNLOAD_RETRIES):\n        try:\n            return _download_http(url, local_path, expected_size_in_bytes, progress_indicator)\n'
+            '        except _RETRYABLE_HTTP_ERRORS as exc:\n            logger.warning("Retrying after %s", exc)\n            sleep(HTTP_DOWNLOAD_RETRY_PAUSE_SECONDS)\n'
+            '    return _download_http(url, local_path, expected_size_in_bytes, progress_indicator)\n')
+_RC_OLD = 'HTTP_DOWNLOAD_RETRIES = 10\n'
+_RC_NEW = ('HTTP_DOWNLOAD_RETRIES = 10\nHTTP_DOWNLOAD_RETRY_PAUSE_SECONDS = 5\n_RETRYABLE_HTTP_ERRORS = (urllib3.exceptions.ProtocolError, urllib3.exceptions.ReadTimeoutError)\n')
+_RL_WHILE = ('    attempt = 0\n    while True:\n        attempt += 1\n        try:\n            return _download_http(url, local_path, expected_size_in_bytes, progress_indicator)\n'
+             '        except (urllib3.exceptions.ProtocolError, urllib3.exceptions.ReadTimeoutError) as exc:\n            if attempt > HTTP_DOWNLOAD_RETRIES:\n                raise\n'
+             '            logger.warning("Retrying after %s (attempt %d)", exc, attempt)\n            sleep(5)\n')
+# benign b12: the choice of the file to fetch and the download with its error translation are helper methods; the (path, declared size) pair travels as a NamedTuple
+_DT_IMPORT_OLD = 'from typing import Callable, Optional\n'
+_DT_IMPORT_NEW = 'from typing import Callable, NamedTuple, Optional\n'
+_DT_CLS_OLD = 'class DocumentSetPreparator:\n    def __init__(self, track_name, downloader, decompressor):\n'
+_DT_CLS_NEW = ('class DownloadTarget(NamedTuple):\n    path: str\n    expected_size: Optional[int]\n\n\nclass DocumentSetPreparator:\n'
+               '    def download_target(self, document_set, doc_path, archive_path):\n        if document_set.has_compressed_corpus():\n'
+               '            return DownloadTarget(archive_path, document_set.compressed_size_in_bytes)\n        if document_set.has_uncompressed_corpus():\n'
+               '            return DownloadTarget(doc_path, document_set.uncompressed_size_in_bytes)\n'
+               '        raise exceptions.RallyAssertionError(f"Track {self.track_name} specifies documents but no corpus")\n\n'
+               '    def download_corpus_file(self, document_set, target):\n        try:\n            self.downloader.download(document_set.base_url, target.path, target.expected_size)\n'
+               '        except exceptions.DataError as e:\n            if e.message == "Cannot download data because no base URL is provided." and self.is_locally_available(target.path):\n'
+               '                raise exceptions.DataError(f"[{target.path}] is present but does not have the expected size of [{target.expected_size}] bytes.") from None\n            raise\n\n'
+               '    def __init__(self, track_name, downloader, decompressor):\n')
+_DT_ARM_OLD = ('                if document_set.has_compressed_corpus():\n                    target_path = archive_path\n                    expected_size = document_set.compressed_size_in_bytes\n'
+               '                elif document_set.has_uncompressed_corpus():\n                    target_path = doc_path\n                    expected_size = document_set.uncompressed_size_in_bytes\n'
+               '                else:\n                    # this should not happen in practice as the JSON schema should take care of this\n'
+               '                    raise exceptions.RallyAssertionError(f"Track {self.track_name} specifies documents but no corpus")\n\n'
+               '                try:\n                    self.downloader.download(document_set.base_url, target_path, expected_size)\n                    self.invalidate_file_offset_table(doc_path)\n'
+               '                except exceptions.DataError as e:\n                    if e.message == "Cannot download data because no base URL is provided." and self.is_locally_available(target_path):\n'
+               '                        raise exceptions.DataError(\n                            f"[{target_path}] is present but does not have the expected "\n'
+               '                            f"size of [{expected_size}] bytes and it cannot be downloaded "\n                            f"because no base URL is provided."\n'
+               '                        ) from None\n                    raise\n')
+_DT_ARM_NEW = ('                self.download_corpus_file(document_set, self.download_target(document_set, doc_path, archive_path))\n                self.invalidate_file_offset_table(doc_path)\n')
+_DT_ARM_PAIR = ('                target_path, expected_size = self.download_target(document_set, doc_path, archive_path)\n'
+                '                self.downloader.download(document_set.base_url, target_path, expected_size)\n                self.invalidate_file_offset_table(doc_path)\n')
 
 VARIANTS = [
     V("F14: truthiness on the line count", "break", _L, "        if lines_read is not None and lines_read != expected_number_of_lines:", "        if lines_read and lines_read != expected_number_of_lines:", "O14.4"),
@@ -3452,4 +3848,47 @@ VARIANTS = [
     V('corpora held in a local and enumerated', 'keep', _L, _GEN_OLD,
       '        corpora = list(used_corpora(track))\n        for _, corpus in enumerate(corpora):\n            params = {"cfg": self.cfg, "track": track, "corpus": corpus, "preparator": prep}\n'
       '            yield DefaultTrackPreparator.prepare_docs, params\n'),
+    # ---- hardening round 5: the retry protocol decided per world (which attempts are cut off, with which class) on the interpreted function; (target, size) pairs and the
+    # (re)creating calls followed through helper methods that return a record / a pair ----
+    [V('b13: N attempts that may fail, the last one outside the try; pause and retried classes as module-level names', 'keep', _N, _RL_OLD, _RL_TAIL),
+     V('', 'keep', _N, _RC_OLD, _RC_NEW)],
+    [V('b13 shape without the last attempt behind the loop (the error of the last attempt is swallowed, None is returned)', 'break', _N, _RL_OLD,
+       _RL_TAIL.replace('SECONDS)\n    return _download_http(url, local_path, expected_size_in_bytes, progress_indicator)\n', 'SECONDS)\n    return None\n'), 'O14.2'),
+     V('', 'break', _N, _RC_OLD, _RC_NEW)],
+    [V('b13 shape, the tuple of retried classes widened to every urllib3 error', 'break', _N, _RL_OLD, _RL_TAIL, 'O14.2'),
+     V('', 'break', _N, _RC_OLD, _RC_NEW.replace('urllib3.exceptions.ReadTimeoutError)', 'urllib3.exceptions.ReadTimeoutError, urllib3.exceptions.HTTPError)'))],
+    [V('b13 shape, the last attempt is made without the declared size', 'break', _N, _RL_OLD,
+       _RL_TAIL.replace('SECONDS)\n    return _download_http(url, local_path, expected_size_in_bytes, progress_indicator)\n', 'SECONDS)\n    return _download_http(url, local_path, None, progress_indicator)\n'), 'O14.2'),
+     V('', 'break', _N, _RC_OLD, _RC_NEW)],
+    [V('b13 shape, the last attempt is wrapped as well and its error logged', 'break', _N, _RL_OLD,
+       _RL_TAIL.replace('SECONDS)\n    return _download_http(url, local_path, expected_size_in_bytes, progress_indicator)\n',
+                        'SECONDS)\n    try:\n        return _download_http(url, local_path, expected_size_in_bytes, progress_indicator)\n    except _RETRYABLE_HTTP_ERRORS as exc:\n'
+                        '        logger.warning("Giving up after %s", exc)\n'), 'O14.2'),
+     V('', 'break', _N, _RC_OLD, _RC_NEW)],
+    V('retry loop as `while True` with an attempt counter', 'keep', _N, _RL_OLD, _RL_WHILE),
+    V('while loop with a counter: the exhausted budget leaves the loop by break (None is returned)', 'break', _N, _RL_OLD, _RL_WHILE.replace('                raise\n', '                break\n'), 'O14.2'),
+    V('while loop with a counter that is never advanced (retries forever)', 'break', _N, _RL_OLD, _RL_WHILE.replace('        attempt += 1\n', ''), 'O14.2'),
+    V('the error of the last attempt is wrapped into another exception (still an explicit error), behind a log line', 'keep', _N, '            if i == HTTP_DOWNLOAD_RETRIES:\n                raise\n',
+      '            if i == HTTP_DOWNLOAD_RETRIES:\n                logger.error("Giving up after %d attempts", i + 1)\n                raise ConnectionError(f"download of [{url}] failed") from exc\n'),
+    [V('b12: download target chosen by a helper method that returns a NamedTuple, download + error translation in a second helper', 'keep', _L, _DT_IMPORT_OLD, _DT_IMPORT_NEW),
+     V('', 'keep', _L, _DT_CLS_OLD, _DT_CLS_NEW), V('', 'keep', _L, _DT_ARM_OLD, _DT_ARM_NEW)],
+    [V('b12 shape, the helper pairs the archive with the uncompressed size', 'break', _L, _DT_IMPORT_OLD, _DT_IMPORT_NEW, 'O14.4'),
+     V('', 'break', _L, _DT_CLS_OLD, _DT_CLS_NEW.replace('DownloadTarget(archive_path, document_set.compressed_size_in_bytes)', 'DownloadTarget(archive_path, document_set.uncompressed_size_in_bytes)')),
+     V('', 'break', _L, _DT_ARM_OLD, _DT_ARM_NEW)],
+    [V('b12 shape, the record is built with keywords in the other order (same pairs)', 'keep', _L, _DT_IMPORT_OLD, _DT_IMPORT_NEW),
+     V('', 'keep', _L, _DT_CLS_OLD, _DT_CLS_NEW.replace('DownloadTarget(archive_path, document_set.compressed_size_in_bytes)', 'DownloadTarget(expected_size=document_set.compressed_size_in_bytes, path=archive_path)')),
+     V('', 'keep', _L, _DT_ARM_OLD, _DT_ARM_NEW)],
+    [V('b12 shape, the invalidation behind the download helper is lost (nothing in the helper removes the table)', 'break', _L, _DT_IMPORT_OLD, _DT_IMPORT_NEW, 'O14.9'),
+     V('', 'break', _L, _DT_CLS_OLD, _DT_CLS_NEW),
+     V('', 'break', _L, _DT_ARM_OLD, _DT_ARM_NEW.replace('                self.invalidate_file_offset_table(doc_path)\n', ''))],
+    [V('download target helper returns a plain pair that is unpacked in the loop', 'keep', _L, _DT_CLS_OLD,
+       _DT_CLS_NEW.replace('class DownloadTarget(NamedTuple):\n    path: str\n    expected_size: Optional[int]\n\n\n', '').replace('return DownloadTarget(', 'return (')),
+     V('', 'keep', _L, _DT_ARM_OLD, _DT_ARM_PAIR)],
+    [V('unpacked pair: the helper hands back the document path with the compressed size', 'break', _L, _DT_CLS_OLD,
+       _DT_CLS_NEW.replace('class DownloadTarget(NamedTuple):\n    path: str\n    expected_size: Optional[int]\n\n\n', '').replace('return DownloadTarget(', 'return (')
+       .replace('(doc_path, document_set.uncompressed_size_in_bytes)', '(doc_path, document_set.compressed_size_in_bytes)'), 'O14.4'),
+     V('', 'break', _L, _DT_ARM_OLD, _DT_ARM_PAIR)],
+    [V('unpacked pair: the invalidation after the download is lost', 'break', _L, _DT_CLS_OLD,
+       _DT_CLS_NEW.replace('class DownloadTarget(NamedTuple):\n    path: str\n    expected_size: Optional[int]\n\n\n', '').replace('return DownloadTarget(', 'return ('), 'O14.9'),
+     V('', 'break', _L, _DT_ARM_OLD, _DT_ARM_PAIR.replace('                self.invalidate_file_offset_table(doc_path)\n', ''))],
 ]
